@@ -316,3 +316,43 @@ def tagged_enc(v):
         return bytes([249, (v - 2288) // 256, (v - 2288) % 256])
     n = tagged_len(v)
     return bytes([246 + n]) + v.to_bytes(n - 1, "big")
+
+
+# ---------------------------------------------------------------- C04 maxima (README cells + header constants)
+README_FAM = {"Tagged": "tagged", "Split": "split", "Split Full": "sfull", "Split Full No Zero": "snz",
+              "Split Full 16": "s16", "Chained": "chained"}
+
+
+def gen_maxima(readme_path):
+    import re
+    ops = []
+    rows = []
+    for ln in open(readme_path):
+        if ln.startswith("|"):
+            rows.append([c.strip() for c in ln.strip().strip("|").split("|")])
+    for r in rows:
+        if len(r) < 6 or r[0] not in README_FAM and r[0] != "External":
+            continue
+        cells = r[2:6]
+        for k, c in enumerate(cells, 1):
+            c = c.replace(",", "")
+            if not re.fullmatch(r"\d+", c):
+                continue
+            m = int(c)
+            if r[0] == "External":
+                # "external metadata": k payload bytes; "first byte": k-1 payload bytes after a length byte
+                kk = k if r[1] == "external metadata" else k - 1
+                if kk >= 1:
+                    ops.append(f"maxcell ext {kk} {hx(m)}")
+            elif r[1] in ("first", "second"):
+                # level table: the cell is the largest value of that level with k bytes -> it needs <= k bytes,
+                # exactness (next value needs more) only holds for the family maximum rows, checked via table 1
+                continue
+            else:
+                ops.append(f"maxcell {README_FAM[r[0]]} {k} {hx(m)}")
+    for k in range(1, 10):
+        ops.append(f"hdrmax tagged {k}")
+        if k != 3:
+            ops.append(f"hdrmax sfull {k}")
+            ops.append(f"hdrmax snz {k}")
+    return ops
